@@ -134,7 +134,7 @@ class ScriptedSim(mosaik_api_v3.Simulator):
         self._rec(op="ret", kind="setup_done", sid=self.sid)
         return None
 
-    def step(self, time, inputs, max_advance):
+    def step(self, time, inputs, max_advance=None):
         if self.k_time == time:
             self.k += 1
         else:
